@@ -83,6 +83,30 @@ Theorem C04_clone_same : forall ops g g2 ns es,
 Proof. exact clone_same_all. Qed.
 Print Assumptions C04_clone_same.
 
+(* extract_graph - the mechanism behind clone_graph, serialization and find_matching_nodes - in ANY reachable
+   store, stores that contain cross-graph links left by merge_nodes included (no condition on the history):
+   None for a graph without nodes, else exactly the graph's own nodes and the links with BOTH ends in it.
+   (C04_clone_same above likewise quantifies over histories WITH merges: [wf_op] only constrains imports.) *)
+Theorem C04_extract_exact : forall ops g,
+  let G := sg (srun ops init_store) in
+  s_extract G g = match fst (view G g) with
+                  | [] => None
+                  | _ => Some (mkI (fst (view G g)) (snd (view G g)))
+                  end.
+Proof. exact extract_exact_all. Qed.
+Print Assumptions C04_extract_exact.
+
+Example C04_cross_link_nonvacuous :
+  let s := srun ex_cross init_store in
+  forallb wf_op ex_cross = true /\
+  ge (sg s) = [(1, 3, [(k_class, PV 40)])] /\
+  view (sg s) 10 = ([(1, [(k_graphid, PV 10); (k_nodeid, PV 20); (k_class, PV 30)])], []) /\
+  s_extract (sg s) 10 = Some (mkI [(1, [(k_graphid, PV 10); (k_nodeid, PV 20); (k_class, PV 30)])] []) /\
+  snd (s_clone s 10 12) = Ok RUnit /\
+  view (sg (fst (s_clone s 10 12))) 12 = ([(4, [(k_graphid, PV 12); (k_nodeid, PV 20); (k_class, PV 30)])], []) /\
+  view (sg (fst (s_clone s 10 12))) 11 = view (sg s) 11.
+Proof. exact cross_link_nonvacuous. Qed.
+
 (* later changes to either do not show up in the other (instance of the frame theorem) *)
 Theorem C04_clone_independent : forall pre g g2 ops,
   g <> g2 -> (forall o, In o ops -> frame_scope o = true /\ (target o = g \/ target o = g2)) ->
